@@ -203,12 +203,15 @@ def fullTasks : List StmtFull → List TaskFull
   | .task t :: rest => t :: fullTasks rest
   | .decl _ _ :: rest => fullTasks rest
 
+def linksOf (c : Case) : List (Str × Str) :=
+  (c.tree.filter (·.kind == "l")).map fun e => (clean (absOfRel e.path), e.content)
+
 def handleC12 (c : Case) (secs : List String) : String :=
   let cwd := absOfRel c.cwd
   match load cwd (c.stmts.map toEnvStmt) with
   | .error _ => "ERR load || C12=na C13=na C19=na C05=na"
   | .ok f =>
-    let sf : SpokFile := ⟨projDir, f.vars, cleanTasks c.stmts⟩
+    let sf : SpokFile := ⟨projDir, f.vars, cleanTasks c.stmts, physOf (linksOf c)⟩
     match (sect secs "BEFORE").bind parseSnap, (sect secs "AFTER").bind parseSnap with
     | some before0, some after0 =>
       let c0 := sect secs "CACHE0" == some "present"
